@@ -600,7 +600,7 @@ def tie(ctx):
         for f in findings:
             store.append((case, f))
             divs.append(Divergence("corr.tree+solver", {"case": case, **f.extra}, f.what, "ok"))
-        if ctx.elapsed() > (560 if ctx.thorough else 80):
+        if ctx.elapsed() > (560 if ctx.thorough else 200):
             ctx.note("time budget reached; remaining cases skipped")
             break
     tie.store = store
